@@ -40,6 +40,7 @@ type world struct {
 	// scripted faults
 	openFail       int           // next n source Opens fail
 	dstTdFail      string        // "", "T", "F": next destination Teardown returns this error kind
+	holdWhich      string        // which status write holdRun delays ("" = run)
 	holdRun        chan struct{} // non-nil: the next UpdateStatus(Running) is delayed (slow status store) until closed
 	runParked      bool          // … and a call is parked there
 	writesInFlight int           // UpdateStatus calls entered and not yet returned
@@ -644,7 +645,13 @@ func (r recPipelines) UpdateStatus(ctx context.Context, id string, st pipeline.S
 		r.w.writesInFlight--
 		r.w.mu.Unlock()
 	}()
-	if st == pipeline.StatusRunning {
+	r.w.mu.Lock()
+	heldKind := r.w.holdWhich
+	r.w.mu.Unlock()
+	if heldKind == "" {
+		heldKind = "run"
+	}
+	if statusName(st) == heldKind {
 		r.w.mu.Lock()
 		ch := r.w.holdRun
 		r.w.holdRun = nil // one-shot
